@@ -189,6 +189,15 @@ def fault_block(rng, dh, trees):
         out.append(["define-bad", name, expr, cls])
         if name.isalpha() and name.isascii():
             probes += name_probes(rng, name, dh)
+        elif cls == "bad-name":
+            # had the malformed name been registered, a result that is exactly its expression
+            # would be shown under it
+            ex = UF.ref_parse(expr)
+            if ex:
+                ex = [(k, v) for k, v in ex]
+                lf = lambda u: ["leaf", X.units_json(u), X.unit_string(u)]  # noqa: E731
+                probes.append(["node", "mul", [lf(ex[:1]), lf(ex[1:])]] if len(ex) > 1
+                              else ["node", "neg", [lf(ex)]])
         # names defined through the name concerned must keep their meaning too
         for other in names:
             if other != name and any(k == name for k, _ in dh[other]) and rng.random() < 0.7:
